@@ -197,7 +197,26 @@ func cmdC04(r *RNG, n int, e *Emitter, args []string) {
 		info.Grid = G
 		var s, c clip.Paths64
 		pinch := false
-		switch r.Intn(6) {
+		switch r.Intn(7) {
+		case 6:
+			// messy self-intersecting polygons inside a big frame (or two nested frames): under EvenOdd / Xor every ring
+			// they produce is nested (has an owner), also the rings that the self-intersection repair splits off later
+			s = genPathSetN(r, G, 2, 7, &info)
+			m := G/4 + 3
+			frame := clip.Path64{{X: -m, Y: -m}, {X: G + m, Y: -m}, {X: G + m, Y: G + m}, {X: -m, Y: G + m}}
+			if r.Bool() {
+				s = append(s, frame)
+			} else {
+				c = clip.Paths64{frame}
+			}
+			if r.Intn(3) == 0 {
+				m2 := 2 * m
+				s = append(s, clip.Path64{{X: -m2, Y: -m2}, {X: G + m2, Y: -m2}, {X: G + m2, Y: G + m2}, {X: -m2, Y: G + m2}})
+			}
+			if c == nil {
+				c = clip.Paths64{}
+			}
+			info.Kinds = append(info.Kinds, "framed-messy")
 		case 5:
 			// a frame glued from pieces along horizontal lines whose cavity is cut into several holes by shelves that
 			// meet along horizontal segments; an island in each hole (rings split off rings split off rings)
